@@ -258,6 +258,6 @@ impl Part for Histories {
 pub fn run(tier: Tier) -> i32 {
     let mut ctx = Ctx::new("C20", tier);
     ctx.assume("an invocation of the wrapped service is its `call` (a tower service may start work in call)");
-    ctx.run_part(Histories, tier.pick(40_000, 1_500_000));
+    ctx.run_part(Histories, tier.pick(40_000, 60_000_000));
     ctx.finish()
 }
